@@ -441,7 +441,11 @@ C09_Write(r, c2, w) ==
       isP2 == p.t = "PUBLISH" /\ p.qos = 2
       isRel == p.t = "PUBREL"
       mine == SelectSeq([i \in 1..Len(r.q) |-> i], LAMBDA i : r.q[i].a = w.a /\ r.q[i].mid = p.id /\ Pending(c2, r.q[i].d))
-  IN IF ~(isP2 \/ isRel) \/ mine = <<>> THEN r
+      \* exchanges of this identifier that were unfinished when the line began (or were requested in it)
+      \* (QoS 1 requests count too: the code answers a PUBREC for one of them with PUBREL, which this property does not forbid)
+      live == \E h \in r.pre : c2.D[h].a = w.a /\ c2.D[h].mid = p.id
+  IN IF isRel /\ ~live THEN [r EXCEPT !.err = "C09.pubrel_outside_exchange", !.info = <<w.a, p.id>>]     \* e.g. after its PUBCOMP
+     ELSE IF ~(isP2 \/ isRel) \/ mine = <<>> THEN r
      ELSE LET i == mine[Len(mine)]  e == r.q[i] IN
           \* (any unfinished exchange of this identifier that has reached its PUBREL forbids the PUBLISH: the identifier
           \*  becomes free only on PUBCOMP or when the session is discarded)
@@ -459,7 +463,8 @@ C09_Step(c, c2, g, ln) ==
       recs == InbAcks(inb, "PUBREC")
       q1 == [i \in 1..Len(g) |-> IF s.op = "recv" /\ g[i].a = s.a /\ g[i].mid \in recs /\ g[i].phase = "pub" /\ Pending(c, g[i].d)
                                  THEN [g[i] EXCEPT !.rec = TRUE] ELSE g[i]] \o new
-      r == C09_Fold([q |-> q1, err |-> "", info |-> <<>>, hit |-> 0], c2, Writes(c2, ln), 1)
+      pre == {h \in 1..Len(c2.D) : IsPubReq(c2.D[h]) /\ (h > Len(c.D) \/ Pending(c, h))}
+      r == C09_Fold([q |-> q1, pre |-> pre, err |-> "", info |-> <<>>, hit |-> 0], c2, Writes(c2, ln), 1)
   IN IF r.err # "" THEN Bad2(g, r.err, r.info) ELSE Hit(r.q, r.hit)
 C09_End(c, g) == OKr(g)
 
@@ -957,6 +962,29 @@ C20_Step(c, c2, g, ln) ==
        (IF judged /\ ~argOK THEN 1 ELSE 0) + (IF after THEN 1 ELSE 0))
 C20_End(c, g) == OKr(g)
 
+\* C14, latent effects: a call refused for the state must not change what the client does later either.  The refstate
+\* enumeration pairs every history containing such a call (at line p0 + 1) with its twin without it (meta.ref); after the
+\* refused call both must show the same effects, projected state and times (identifiers aside, as for C20).
+C14_0 == [twin |-> FALSE, shift |-> 0, d0 |-> 0]
+C14x_Step(c, c2, g, ln) ==
+  LET r == C14_Step(c, c2, g, ln) IN
+  IF r.err # "" THEN r ELSE
+  LET s == ln.stim
+      hasRef == "meta" \in DOMAIN ln /\ "ref" \in DOMAIN ln.meta /\ ln.meta.ref # 0
+      isExtra == hasRef /\ ln.n = ln.meta.p0 + 1
+      out == IF s.op \in ApiOps \cup {"disconnect"} THEN Outcome(c2, ln) ELSE "none"
+      startTwin == isExtra /\ out = "MQTTStateError"
+      after == hasRef /\ g.twin /\ ln.n > ln.meta.p0 + 1
+      refln == IF after THEN T[Idx[ln.meta.ref][1] + ln.n - 2] ELSE ln
+      sameLater == ~after \/ ( /\ NormFx(ln.fx, g.shift, g.d0) = NormFx(refln.fx, 0, 0)
+                               /\ ln.post.state = refln.post.state /\ ln.post.timers = refln.post.timers
+                               /\ Len(ln.post.pending) = Len(refln.post.pending) /\ ln.t = refln.t )
+      g2 == [twin |-> IF isExtra THEN startTwin ELSE g.twin,
+             shift |-> IF isExtra THEN Len(Fx(ln, "ret")) ELSE g.shift, d0 |-> IF isExtra THEN Len(c.D) ELSE g.d0]
+  IN FirstBad(g2, << <<sameLater, "C14.refused_call_changed_later_behaviour",
+                       <<ln.n, s.op, NormFx(ln.fx, g.shift, g.d0), NormFx(refln.fx, 0, 0), ln.post.state, refln.post.state>> >> >>,
+              r.hit + (IF after THEN 1 ELSE 0))
+
 
 -----------------------------------------------------------------------------
 (* C03  Packet framing is independent of how TCP segments the byte stream *)
@@ -1065,9 +1093,9 @@ C19_End(c, g) ==
 
 -----------------------------------------------------------------------------
 (* engine *)
-Gh0 == CASE Prop = "C18" -> C18_0 [] Prop = "C14" -> <<>> [] Prop = "C04" -> C04_0 [] Prop = "C05" -> C05_0 [] Prop = "C10" -> C10_0 [] Prop = "C13" -> C13_0 [] Prop = "C06" -> C06_0 [] Prop = "C07" -> C07_0 [] Prop = "C11" -> C11_0 [] Prop = "C15" -> C15_0 [] Prop = "C16" -> C16_0 [] Prop = "C20" -> C20_0 [] Prop = "C03" -> C03_0 [] Prop = "C19" -> C19_0 [] OTHER -> <<>>
+Gh0 == CASE Prop = "C18" -> C18_0 [] Prop = "C14" -> C14_0 [] Prop = "C04" -> C04_0 [] Prop = "C05" -> C05_0 [] Prop = "C10" -> C10_0 [] Prop = "C13" -> C13_0 [] Prop = "C06" -> C06_0 [] Prop = "C07" -> C07_0 [] Prop = "C11" -> C11_0 [] Prop = "C15" -> C15_0 [] Prop = "C16" -> C16_0 [] Prop = "C20" -> C20_0 [] Prop = "C03" -> C03_0 [] Prop = "C19" -> C19_0 [] OTHER -> <<>>
 PropStep(c, c2, g, ln) ==
-  CASE Prop = "C18" -> C18_Step(c, c2, g, ln) [] Prop = "C14" -> C14_Step(c, c2, g, ln)
+  CASE Prop = "C18" -> C18_Step(c, c2, g, ln) [] Prop = "C14" -> C14x_Step(c, c2, g, ln)
     [] Prop = "C04" -> C04_Step(c, c2, g, ln) [] Prop = "C05" -> C05_Step(c, c2, g, ln)
     [] Prop = "C06" -> C06_Step(c, c2, g, ln) [] Prop = "C07" -> C07_Step(c, c2, g, ln)
     [] Prop = "C11" -> C11_Step(c, c2, g, ln) [] Prop = "C12" -> C12_Step(c, c2, g, ln)
